@@ -152,6 +152,9 @@ type AffEnv struct {
 	// name gives a stable name to a leaf value (e.g. "cidLen" for an Extract of a
 	// given call); return "" to fall back to identity.
 	name func(v ssa.Value) string
+	// aff, when set, gives a leaf value as an affine form of its own (a loop counter as
+	// iterations + start); it is asked before name.
+	aff func(v ssa.Value) (Aff, bool)
 }
 
 func (e *AffEnv) of(v ssa.Value) Aff { return e.ofd(v, 0) }
@@ -159,6 +162,11 @@ func (e *AffEnv) of(v ssa.Value) Aff { return e.ofd(v, 0) }
 func (e *AffEnv) ofd(v ssa.Value, depth int) Aff {
 	if depth > 40 {
 		return affAtom(fmt.Sprintf("deep%p", v))
+	}
+	if e.aff != nil {
+		if a, ok := e.aff(v); ok {
+			return a
+		}
 	}
 	if e.name != nil {
 		if n := e.name(v); n != "" {
